@@ -242,14 +242,22 @@ func vf04Fresh(seen *vf04Seen, conns int) string {
 }
 
 type vf04Source struct {
-	kind   string // parrot | randomized | fingerprinted
+	kind   string // parrot | randomized | fingerprinted | json
 	parrot vfParrot
 	id     ClientHelloID
+	// share: ONE spec object (fingerprinted once) is applied to every connection of the source, as an application that
+	// keeps its imported fingerprint around does; ApplyPreset re-draws the GREASE values of a spec it has seen before
+	share      bool
+	sharedSpec *ClientHelloSpec
+	sharedExp  vf04Expect
 }
 
 func (s *vf04Source) name() string {
 	if s.kind == "randomized" {
 		return "randomized:" + s.id.Client
+	}
+	if s.share {
+		return s.kind + "(one spec object for all connections):" + s.parrot.Name
 	}
 	return s.kind + ":" + s.parrot.Name
 }
@@ -316,11 +324,19 @@ func vf04Hello(s *vf04Source, rnd *vfDetRand, name string) (raw []byte, exp vf04
 			}
 			return c.HandshakeState.Hello.Raw, exp, "", nil
 		}
-		spec, ferr := (&Fingerprinter{}).FingerprintClientHello(vf04Record(cc.HandshakeState.Hello.Raw))
-		if ferr != nil {
-			return nil, exp, "fingerprint-error: " + ferr.Error(), nil
+		var ferr error
+		if s.share && s.sharedSpec != nil {
+			spec, exp = s.sharedSpec, s.sharedExp
+		} else {
+			spec, ferr = (&Fingerprinter{}).FingerprintClientHello(vf04Record(cc.HandshakeState.Hello.Raw))
+			if ferr != nil {
+				return nil, exp, "fingerprint-error: " + ferr.Error(), nil
+			}
+			exp = vf04ExpectOf(spec)
+			if s.share {
+				s.sharedSpec, s.sharedExp = spec, exp
+			}
 		}
-		exp = vf04ExpectOf(spec)
 		cp2, sp2 := vfPipe()
 		defer cp2.Close()
 		defer sp2.Close()
@@ -360,6 +376,9 @@ func vf04RunSource(st *vfStats, t vfFataler, s *vf04Source, conns int, streamSee
 	}
 	st.Eval()
 	st.Class("source:" + s.kind)
+	if s.share {
+		st.Class("source:one-spec-object-reused")
+	}
 	if seen.withGrease > 0 {
 		st.Class("with-grease:" + s.kind)
 		st.NonTrivial(fmt.Sprintf("%s|%d|%v", s.name(), streamSeed, det))
@@ -383,7 +402,7 @@ func vf04GenSource(rt *rapid.T) *vf04Source {
 		return &vf04Source{kind: "randomized", id: id}
 	case 1, 2:
 		p := vfGenParrot(rt, "parrot")
-		return &vf04Source{kind: "fingerprinted", parrot: p, id: p.ID}
+		return &vf04Source{kind: "fingerprinted", parrot: p, id: p.ID, share: rapid.Bool().Draw(rt, "share_spec_object")}
 	case 3:
 		p := vfGenParrot(rt, "parrot")
 		return &vf04Source{kind: "json", parrot: p, id: p.ID}
@@ -416,6 +435,7 @@ func TestVerifC04AllParrots(t *testing.T) {
 		vf04RunSource(st, t, &vf04Source{kind: "parrot", parrot: p, id: p.ID}, 16, 0, false)
 		vf04RunSource(st, t, &vf04Source{kind: "fingerprinted", parrot: p, id: p.ID}, vf04Conns, uint64(2000+i), true)
 		vf04RunSource(st, t, &vf04Source{kind: "json", parrot: p, id: p.ID}, 8, uint64(3000+i), true)
+		vf04RunSource(st, t, &vf04Source{kind: "fingerprinted", parrot: p, id: p.ID, share: true}, 12, uint64(4000+i), true)
 	}
 }
 
